@@ -416,7 +416,23 @@ EVAL = {'text': eval_text, 'decode': eval_decode, 'transcode': eval_transcode,
         'typeerr': eval_typeerr, 'stdin': eval_stdin, 'slug': eval_slug}
 
 
+def TWIN_FUNCS():
+    from oslo_utils import encodeutils as eu
+    from oslo_utils import strutils
+    return {'to_slug': lambda v: strutils.to_slug(v), 'safe_decode': lambda v: eu.safe_decode(v),
+            'safe_encode': lambda v: eu.safe_encode(v), 'safe_encode_latin1': lambda v: eu.safe_encode(v, encoding='latin-1')}
+
+
+TWIN_TEXT_FUNCS = ['to_slug', 'safe_encode', 'safe_encode_latin1']      # (safe_decode hands a str argument back as it is)
+TWIN_TEXTS = ['Hello World', '\xc4\xd6 \xfc', 'Already-Slug', 'MiXed Case_Text 42', 'caf\xe9 Au Lait', 'ABC']
+TWIN_NUM_FUNCS = ()
+TWIN_NUMBERS = ()
+
+
 def _evaluate_nomodes(ctx, case):
+    if case.get('kind') == 'twins':
+        from vlib import twins as _tw
+        return _tw.evaluate_case(ctx, case, TWIN_FUNCS())
     EVAL[case['kind']](ctx, case)
 
 
@@ -608,6 +624,12 @@ SLUG_DIRECTED = ['', ' ', '-', '--', '---', ' - ', '- -', '_', '__', 'a', 'A', '
 
 
 def run(ctx):
+    # ---- the same characters / the same number handed over as other objects, in several orders (vlib/twins.py)
+    from vlib import twins as _tw
+    for _i, _case in enumerate(_tw.make_cases(ctx.rng('twins'), ctx.pick(160, 8000), TWIN_TEXT_FUNCS, TWIN_TEXTS,
+                                              TWIN_NUM_FUNCS, TWIN_NUMBERS)):
+        if ctx.mine(_i):
+            evaluate(ctx, _case)
     idx = 0
 
     def emit(case, klass=None):
